@@ -76,6 +76,12 @@ Section C15.
     exists rc, rc <> 0 /\ step E_eqb sem e_default cfg st (OVote c i b) = (st, rc).
   Proof. exact (refusals_thm E_eqb sem e_default). Qed.
 
+  (** a withdrawal of an unknown or ended proposal, or by anybody but the sponsor, is refused *)
+  Theorem C15_refusals_withdraw : forall cfg (st : @state E) c i,
+    withdraw_must_fail st c i = true ->
+    exists rc, rc <> 0 /\ step E_eqb sem e_default cfg st (OWithdraw c i) = (st, rc).
+  Proof. exact (refusals_withdraw E_eqb sem e_default). Qed.
+
   Theorem C15_failed_tx_frame : forall cfg (st : @state E) o rc st',
     step E_eqb sem e_default cfg st o = (st', rc) -> rc <> 0 -> st' = st.
   Proof. exact (failed_tx_frame E_eqb sem e_default). Qed.
@@ -158,6 +164,7 @@ Print Assumptions C15_avail_ok_vote_partial.
 Print Assumptions C15_one_vote.
 Print Assumptions C15_one_ballot_per_tx.
 Print Assumptions C15_refusals.
+Print Assumptions C15_refusals_withdraw.
 Print Assumptions C15_failed_tx_frame.
 Print Assumptions C15_guarded_refused.
 Print Assumptions C15_zero_permission_closed.
